@@ -124,9 +124,10 @@ def run(ch, tier):
         op = ops.weighted([('add_state', 4), ('remove_state', 2), ('rename_state', 3), ('move_state', 4), ('add_transition', 4),
                            ('remove_transition', 2), ('rotate_transition', 5)])
 
-        def pick_name(p_bad=(1, 5)):
+        def pick_name(p_bad=(1, 5), empty_ok=True):
             if not names or ops.flag(*p_bad):
-                return 'NOSUCH'
+                # unknown names; the empty string is one of them wherever the API does not give it a meaning of its own
+                return ops.pick(['NOSUCH', 'NOSUCH', '']) if empty_ok else 'NOSUCH'
             return ops.pick(names)
         expect_err = None
         call = None
@@ -138,7 +139,7 @@ def run(ch, tier):
             else:
                 fresh[0] += 1
                 nm = 'n%d' % fresh[0]
-            parent = None if (not names or ops.flag(1, 8)) else pick_name()
+            parent = None if (not names or ops.flag(1, 8)) else pick_name(empty_ok=False)
             obj = KINDS[kind](nm)
             if nm in m.st:
                 expect_err = 'duplicate name'
@@ -272,8 +273,8 @@ def run(ch, tier):
                 continue
             t = ops.pick(live)
             mode = ops.weighted([('source', 2), ('target', 2), ('both', 3), ('none', 1), ('internal', 1)])
-            ns = pick_name() if mode in ('source', 'both') else ''
-            nt = (pick_name() if mode in ('target', 'both') else '') if mode != 'internal' else None
+            ns = pick_name(empty_ok=False) if mode in ('source', 'both') else ''
+            nt = (pick_name(empty_ok=False) if mode in ('target', 'both') else '') if mode != 'internal' else None
             if mode == 'none':
                 expect_err = 'no argument'
             elif ns != '' and ns not in m.st:
